@@ -38,7 +38,8 @@ def volumeStepSpec (g : Gen σ α) (m : SimModel α) (vm : VolModel α) (times :
     { s with x := xp.1, p := xp.2, t := s.nextTick, idx := idx1 s.nextTick, ruleStep := true, rows := rec1 s.nextTick,
              volTrace := vt1 s.nextTick, g := g1, vol := vol, nextTick := s.nextTick + m.dt, divided := dv, stop := dv }
   else if zero then
-    { s with x := xp.1, p := xp.2, t := cand, idx := idx1 cand, ruleStep := true, rows := rec1 cand,
+    -- nothing can fire: move to the grid time; only ticks are rule steps
+    { s with x := xp.1, p := xp.2, t := cand, idx := idx1 cand, ruleStep := false, rows := rec1 cand,
              volTrace := vt1 cand, g := g1 }
   else
     let ug' := g g1
